@@ -3,6 +3,7 @@ package main
 import (
 	"encoding/json"
 	"fmt"
+	"sync/atomic"
 
 	"github.com/aml-org/amf-custom-validator/pkg"
 	"github.com/aml-org/amf-custom-validator/pkg/config"
@@ -23,6 +24,16 @@ type histCase struct {
 	Fresh    []string          `json:"fresh"`
 	Steps    []string          `json:"steps"`
 	Handles  []int             `json:"handles"` // handle index per step (0/1)
+	// script mode: several profile texts, named handles, an explicit sequence of compile / validate / validateCompiled
+	Profiles map[string]string `json:"profiles"`
+	Script   []histOp          `json:"script"`
+}
+
+type histOp struct {
+	Op     string `json:"op"` // compile | validate | validateCompiled
+	PKey   string `json:"pkey"`
+	Handle string `json:"handle"`
+	DKey   string `json:"dkey"`
 }
 
 type histCall struct {
@@ -46,6 +57,10 @@ type histObs struct {
 
 func runHistory(c histCase) histObs {
 	obs := histObs{ID: c.ID, Entry: "history", Chan: "none", PClass: "ok", DClass: "unknown", Calls: []histCall{}, Milestones: []msObs{}}
+	if atomic.LoadInt32(&poisoned) != 0 {
+		obs.Skipped = "process poisoned by an earlier timeout"
+		return obs
+	}
 	repCfg := config.DefaultReportConfiguration()
 	record := func(entry, dkey string, o outcome) {
 		co := callObs{Entry: entry, Kind: o.kind, Err: o.err, Panic: o.pmsg, Events: []int{}, TimesOK: true}
@@ -56,6 +71,47 @@ func runHistory(c histCase) histObs {
 			obs.Stack = o.stack
 		}
 		obs.Calls = append(obs.Calls, histCall{callObs: co, PKey: c.PKey, DKey: dkey, DClass: c.DClasses[dkey]})
+	}
+	if len(c.Script) > 0 {
+		hs := map[string]*rego.PreparedEvalQuery{}
+		hp := map[string]string{}
+		for _, op := range c.Script {
+			op := op
+			switch op.Op {
+			case "compile":
+				o := guarded(func() (string, *rego.PreparedEvalQuery, error) {
+					h, err := pkg.CompileProfile(c.Profiles[op.PKey], false, nil)
+					if err != nil {
+						return "", h, err
+					}
+					return "", h, nil
+				})
+				record("compile", "", o)
+				obs.Calls[len(obs.Calls)-1].PKey = op.PKey
+				if o.kind == "handle" {
+					hs[op.Handle] = o.h
+					hp[op.Handle] = op.PKey
+				}
+			case "validate":
+				record("validate", op.DKey, guarded(func() (string, *rego.PreparedEvalQuery, error) {
+					r, err := pkg.ValidateWithConfiguration(c.Profiles[op.PKey], c.Docs[op.DKey], false, nil, clockA, repCfg)
+					return r, nil, err
+				}))
+				obs.Calls[len(obs.Calls)-1].PKey = op.PKey
+			case "validateCompiled":
+				h := hs[op.Handle]
+				if h == nil {
+					obs.Skipped = "script uses a handle that was not compiled: " + op.Handle
+					return obs
+				}
+				record("validateCompiled", op.DKey, guarded(func() (string, *rego.PreparedEvalQuery, error) {
+					r, err := pkg.ValidateCompiledWithConfiguration(h, c.Docs[op.DKey], false, nil, clockA, repCfg)
+					return r, nil, err
+				}))
+				obs.Calls[len(obs.Calls)-1].PKey = hp[op.Handle]
+			}
+		}
+		return obs
 	}
 	for _, d := range c.Fresh {
 		text := c.Docs[d]
@@ -80,6 +136,9 @@ func runHistory(c histCase) histObs {
 			return "", h, nil
 		})
 		record("compile", "", o)
+		if o.kind == "timeout" || o.kind == "panic" {
+			return obs // the recorded call is itself not a behaviour of the specification
+		}
 		if o.kind != "handle" {
 			obs.Skipped = "compile:" + o.kind
 			return obs
